@@ -364,11 +364,18 @@ fn derive_call_shape(def: &CallDef, symbol_table: &mut BTreeMap<Rc<str>, Shape>)
             // arg_order preserves declaration order so we can zip with the positional arglist.
             for (arg_name, arg_expr) in fdef.arg_order.iter().zip(def.arglist.iter()) {
                 let actual_shape = arg_expr.derive_shape(symbol_table);
+                // A fault inside the argument keeps its own position.
+                if let Shape::TypeErr(_, _) = &actual_shape {
+                    return actual_shape;
+                }
                 if let Some(declared_shape) = fdef.args.get(arg_name) {
-                    if let Shape::TypeErr(pos, msg) =
+                    // The shape of a symbol carries the position of its
+                    // definition. An argument of the wrong type is a fault of
+                    // this call and is reported at the argument.
+                    if let Shape::TypeErr(_, msg) =
                         declared_shape.narrow(&actual_shape, symbol_table)
                     {
-                        return Shape::TypeErr(pos, msg);
+                        return Shape::TypeErr(arg_expr.pos().clone(), msg);
                     }
                 }
             }
